@@ -47,6 +47,7 @@ Record envx := {
   e_now : Z;
   e_limiter : bool;            (* password attempt limiter lets this request through *)
   e_webui : N;                 (* getRequiredWebUIAuthLevel() *)
+  e_deny : list N;             (* Config.DenyTrustData.KeyDenyFPsshSha256 *)
   e_admin : N -> bool;         (* IsAdminUser *)
   e_autoadmin : N -> bool;     (* isAutomationAdmin *)
   e_target : N;                (* user named in the path / form (0 = none) *)
@@ -63,7 +64,7 @@ Fixpoint run (env : envx) (q : reqx) (steps : list step) (id : ident) : ident * 
     | SEff e => let '(i, es) := run env q r id in (i, e :: es)
     | SMeth l => if existsb (meth_eqb (q_meth q)) l then run env q r id else (id, [])
     | SAuth m =>
-        match check_auth (e_now env) (e_limiter env) (mask_val (e_webui env) m) q with
+        match check_auth (e_now env) (e_limiter env) (e_deny env) (mask_val (e_webui env) m) q with
         | Admit u l _ => run env q r (Some (u, l))
         | Refuse _ => (id, [])
         end
@@ -82,9 +83,10 @@ Fixpoint run (env : envx) (q : reqx) (steps : list step) (id : ident) : ident * 
     | SSelf => match id with Some (u, _) => if e_target env =? u then run env q r id else (id, []) | None => (id, []) end
     | SOwn => if e_own env then run env q r id else (id, [])
     | SPassword =>
-        match q_cred q with
-        | Basic u ok berr => if e_limiter env && negb berr && ok then run env q r (Some (u, bPassword)) else (id, [])
-        | _ => (id, [])
+        (* the login handler looks at the submitted name and password only, whatever cookie comes along *)
+        match k_basic (q_cred q) with
+        | Some b => if e_limiter env && negb (b_err b) && b_ok b then run env q r (Some (b_user b, bPassword)) else (id, [])
+        | None => (id, [])
         end
     | SCheck => if e_check env then run env q r id else (id, [])
     end
@@ -119,8 +121,8 @@ Definition accepts (env : envx) (q : reqx) (g : gate) : Prop :=
   match g with
   | GPublic => False
   | GOwn => e_own env = true
-  | GPassword => exists u berr, q_cred q = Basic u true berr
-  | GMask m x => exists u l, proves (e_now env) q u l /\ hasb l (mask_val (e_webui env) m) = true /\
+  | GPassword => exists b, k_basic (q_cred q) = Some b /\ b_ok b = true
+  | GMask m x => exists u l, proves (e_now env) (e_deny env) q u l /\ hasb l (mask_val (e_webui env) m) = true /\
                              (q_meth q <> GET -> origin_ok q) /\ extra_ok x env u l
   end.
 
@@ -158,8 +160,9 @@ Definition route_table : list row := [
   {| rt_key := """/custom_static/"""; rt_gate := GPublic; rt_steps := [] |};
   {| rt_key := "runtimeState.u2fRegisterRequest"; rt_gate := GMask MWebUI XSelfOrAdminU2F;
      rt_steps := [SCheck; SAuth MWebUI; SSelfOrAdminU2F; SCheck; SEff EChange] |};
+  (* POST only since fix 6ebb558 (the method test comes after the body and the profile were read) *)
   {| rt_key := "runtimeState.u2fRegisterResponse"; rt_gate := GMask MWebUI XSelfOrAdminU2F;
-     rt_steps := [SCheck; SAuth MWebUI; SSelfOrAdminU2F; SCheck; SEff EChange] |};
+     rt_steps := [SCheck; SAuth MWebUI; SSelfOrAdminU2F; SCheck; SMeth [POST]; SCheck; SEff EChange] |};
   {| rt_key := "runtimeState.u2fSignRequest"; rt_gate := GMask MAny XNone;
      rt_steps := [SAuth MAny; SCheck; SEff EStart] |};
   {| rt_key := "runtimeState.u2fSignResponse"; rt_gate := GMask MAny XNone;
@@ -167,7 +170,7 @@ Definition route_table : list row := [
   {| rt_key := "runtimeState.webauthnBeginRegistration"; rt_gate := GMask MWebUI XSelfOrAdminU2F;
      rt_steps := [SCheck; SAuth MWebUI; SSelfOrAdminU2F; SCheck; SEff EChange] |};
   {| rt_key := "runtimeState.webauthnFinishRegistration"; rt_gate := GMask MWebUI XSelfOrAdminU2F;
-     rt_steps := [SCheck; SAuth MWebUI; SSelfOrAdminU2F; SCheck; SEff EChange] |};
+     rt_steps := [SCheck; SAuth MWebUI; SSelfOrAdminU2F; SCheck; SMeth [POST]; SCheck; SEff EChange] |};
   {| rt_key := "runtimeState.webauthnAuthLogin"; rt_gate := GMask MAny XNone;
      rt_steps := [SAuth MAny; SCheck; SEff EStart] |};
   {| rt_key := "runtimeState.webauthnAuthFinish"; rt_gate := GMask MAny XNone;
@@ -222,6 +225,10 @@ Close Scope string_scope.
 (* the u2f token manager before it insisted on POST (kept for c06_old_manage_refuted) *)
 Definition manage_u2f_old_steps : list step :=
   [SAuth MWebUI; SCheck; SSelfOrAdminU2F; SCheck; SEff EChange].
+
+(* the two registration-finish handlers before they insisted on POST (kept for c06_old_register_finish_refuted) *)
+Definition register_finish_old_steps : list step :=
+  [SCheck; SAuth MWebUI; SSelfOrAdminU2F; SCheck; SEff EChange].
 
 (* ---- structural checkers (decidable; soundness is proved in Proofs/AuthGate.v) ---- *)
 
